@@ -886,7 +886,9 @@ func (s *Sim) syncPoll(ev *Event) {
 	if len(cands) == 0 {
 		return
 	}
-	peer := cands[s.tape.Draw(st, uint64(len(cands)))]
+	// (rotating start, so that a tape of zeros - the shrinker's favourite - is still a fair poll)
+	n.syncPolls++
+	peer := cands[(int(s.tape.Draw(st, uint64(len(cands))))+n.syncPolls)%len(cands)]
 	if !s.linked(peer, n) || !s.linked(n, peer) {
 		return
 	}
